@@ -47,7 +47,11 @@ type sessHandle struct {
 
 func parseU(s string) (u [3]*int) {
 	for i, t := range strings.Split(s, "/") {
-		if t != "_" && i < 3 {
+		switch {
+		case i >= 3 || t == "_":
+		case t == "~":
+			u[i] = nullInt // an explicit null (round 4)
+		default:
 			v, _ := strconv.Atoi(t)
 			u[i] = &v
 		}
